@@ -1990,7 +1990,11 @@ func (s *SweepingProvider) individualProvide(prefix bitstr.Key, keys []mh.Multih
 			// Put the key back in the provide queue.
 			s.failedProvide(prefix, keys, fmt.Errorf("individual provide failed for prefix '%s', %w", prefix, err))
 		}
-		if reprovide && err == nil {
+		if reprovide && err == nil && len(coveredPrefix) >= len(prefix) {
+			// Never widen the region here: only this key was reprovided, so
+			// rescheduling (and logging as reprovided) a wider prefix would drop
+			// the sibling regions it covers from the schedule without their keys
+			// having been reprovided.
 			prefix = coveredPrefix
 		}
 		provideErr = err
